@@ -25,6 +25,19 @@ check("C02", "exploration",
       SIM + "refinement against an executable reading of the protocol documents across fault-reached manager states",
       "DESIGN.md 4/C02", "manager-world")
 
+check("C03", "exploration",
+      "Full-server simulation: the real TCPServer.run, socketserver loop, request handler and shutdown "
+      "helper thread run as tasks under the seeded baton scheduler; histories of hostile request lines "
+      "(arbitrary bytes, invalid UTF-8, deep nesting, huge integers, hostile JSON shapes, requests of "
+      "every command with hostile / oversized field values, malformed blocks and brothers) arrive over "
+      "simulated connections in fragments, half-closed, reset before the reply or two at once; after "
+      "every line: exactly one JSON line with an integer errorcode came back, the manager is still "
+      "serving, and a well-formed probe on a new connection is answered with 0 (bounded liveness).",
+      "Benign record-only device; a client that never ends its line is outside the property; "
+      "bitcoin.core is the stand-in.",
+      SIM + "full-server simulation under a seeded scheduler, hostile request histories, reply and liveness invariants",
+      "DESIGN.md 4/C03", "manager-world")
+
 check("C04", "fault_enumeration",
       "One outcome injected at one step of one command's device exchange: status word (quick: every "
       "status named in the firmware headers + range boundaries + seeded others; thorough: all 65 536 "
